@@ -132,8 +132,9 @@ class Case:
         out = {"hung": self.hung, "threads_alive": [], "fds_open": {}, "ledger_violations": [], "proc_fd_delta": 0, "exceptions": [],
                "undocumented": [r for r in self.log if r["status"] == "raised" and not r.get("documented")]}
         if self.hung is None:
-            if not self.stopped:
-                self.call("stop")
+            # stop() may be called more than once: always issue a final one (an emitter started after an earlier stop() -
+            # stop(); schedule(); start() - must be ended by it)
+            self.call("stop")
             if self.hung is None and self.started and not self.joined:
                 self.call("join")
             elif self.hung is None and not self.started:
